@@ -105,9 +105,10 @@ class Lower:
             return '(RAsPtr %s)' % self.r(e[3])
         self.bad('run-time expression not in the subset', e)
 
-    def reuse_dead_local(self, stmts):
+    def reuse_dead_local(self, stmts, outer=()):
         """T const x = E;  REST      with x a name the frame does not have, E mentioning a frame local V that REST never mentions,
-           and REST never assigning x      is      V = E;  REST[x := V]      (V is dead after E: its storage can hold x)"""
+           (nor does anything that runs after this block), and REST never assigning x
+           is      V = E;  REST[x := V]      (V is dead after E: its storage can hold x)"""
         stmts = list(stmts)
         for i, st in enumerate(stmts):
             if st[0] == 'decl' and len(st[2]) == 1 and st[2][0][0] not in LOCALS and st[2][0][1] is not None and (norm(st[1]).endswith('const') or ('*' not in st[1] and norm(st[1]).startswith('const'))):
@@ -116,16 +117,21 @@ class Lower:
                 if not any(mc._mentions(init, v) for v in LOCALS) and not mc._mentions(init, 'arg'):
                     # a name for an expression no assignment of this function can change (a compile-time table, slots_strides)
                     stmts = stmts[:i] + mc._subst_ids(rest, {x: init})
-                    return self.reuse_dead_local(stmts)
+                    return self.reuse_dead_local(stmts, outer)
                 for v in ('dispatch', 'vtbl', 'slot', 'stride'):
-                    if mc._mentions(init, v) and not mc._mentions(rest, v) and v in self.locals:
+                    if mc._mentions(init, v) and not mc._mentions(rest, v) and not mc._mentions(list(outer), v) and v in self.locals:
                         stmts = stmts[:i] + [('expr', ('assign', '=', ('id', v), init))] + mc._subst_ids(rest, {x: ('id', v)})
                         break
         return stmts
 
     def seq(self, stmts):
-        stmts = self.reuse_dead_local(stmts)
-        out = [self.s(t) for t in stmts]
+        outer = list(getattr(self, 'cont', []))       # what runs after this block, in the enclosing blocks
+        stmts = self.reuse_dead_local(stmts, outer)
+        out = []
+        for j, t in enumerate(stmts):
+            self.cont = list(stmts[j + 1:]) + outer
+            out.append(self.s(t))
+        self.cont = outer
         out = [t for t in out if t != 'WSkip']
         if not out:
             return 'WSkip'
